@@ -25,7 +25,15 @@
    goroutines is therefore equivalent to one sequence of the three operations, in the order in which
    they take the locks; the theorems below quantify over all such sequences.  Threads are not
    modelled here: that the locks give this atomicity rests on Go's sync semantics and is exercised
-   by the concurrent mode of the C08 harness and the race detector. *)
+   by the concurrent mode of the C08 harness and the race detector.
+
+   SCOPE (V2, finding W1-C08-2).  Part B takes the events of a pushed block from Model/Hub.v [hub_live],
+   which reports them only while the hub is READY.  The real hub fans out every event of its Forkable,
+   also before readiness.  The statements below hold for every start state sh0, but they describe the real
+   hub only when sh0's hub is ready (then they coincide with the faithful ones: C08_all_ready_same).  The
+   statements for ANY start state, with the events of Model/HubAll.v [hub_live_all], are in
+   Spec/C08_All_Spec.v (theorems: Properties/C08_All.v); the argument itself is independent of which
+   events a block produces (Spec/C08_Gen_Spec.v). *)
 From BV Require Import Base.Prelude Model.Block Model.ForkDB Model.Forkable Model.ForkableLookups
   Model.Burst Model.Hub Model.HubSubs.
 Local Open Scope N_scope.
